@@ -16,14 +16,14 @@ LEVEL_TEXT = ('partial. Lean 4 theorems (exact arithmetic): rescaling by s divid
               'interpolation grid is uniform with spacing 1/s and maps centre to centre; at s = 1 every output sample is interpolated at its own '
               'integer coordinate, so the operation is the identity for any interpolator reproducing samples there; a constant aperture keeps its '
               'power up to the one-sample rim (n0 n1 a^2 <= P\' <= (n0+1/s)(n1+1/s) a^2) because the amplitude is divided by s; the mask values stay 0/1 '
-              'and the segment count is kept; the original is untouched (regenerated effect table). Compared with the code on every case: shapes, '
+              'and the segment count is kept; under nearest-sample resampling disjoint segments stay disjoint and their union is the resampled union; s then 1/s returns pixel scale and (for integer n*s) shape; the grid of util.rescale is REGENERATED from the source (each axis centred and sized with its own lengths); the original is untouched (regenerated effect table). Compared with the code on every case: shapes, '
               'per-axis pixel scale, the amplitude factor 1/s on top of util.rescale, the whole interpolation grid, refusals. Power/image/amplitude/OPD '
               'preservation "to interpolation accuracy" is measured, not proved.')
-LEVEL_NOTE = ('partial: bookkeeping theorems over a hand model (pinned, not translated); cubic-spline interpolation accuracy (scipy map_coordinates) is an '
+LEVEL_NOTE = ('partial: bookkeeping theorems over a hand model whose grid (shape argument, row/column coordinates, coordinate order) is regenerated from util.py (Gen/RescaleGrid.lean); the wiring of Plane.rescale is hand-modelled + pinned; cubic-spline interpolation accuracy (scipy map_coordinates) is an '
               'external analytic fact — unproven clause, measured on smooth apertures; the sample count follows float64 semantics of ceil(n*s) at the '
-              'float seam (ASSUMPTIONS); segment disjointness/coverage is oracle-only.')
+              'float seam (ASSUMPTIONS); segment coverage is oracle-only.')
 TECHNIQUE = 'Lean 4 proof (ordered-field algebra with Int.ceil) over a hand model + differential correspondence at exact rationals; measured interpolation clause'
-GEN = ['Effects']
+GEN = ['Effects', 'RescaleGrid']
 OPS = ['C17']
 RULE = ('cases: planes with smooth (super-Gaussian edge) amplitude and low-order polynomial OPD on grids 24..56 (even/odd, non-square), '
         'monolithic or 2..3 segment masks, float or integer mask dtype, uniform / per-axis (px, 1.5 px) / absent pixel scale, scalar '
@@ -44,7 +44,8 @@ UNPROVEN = ['transmitted power sum|amplitude|^2 is preserved to interpolation ac
             'which arrays Plane.rescale interpolates and that it leaves the original untouched under later in-place work on the result: '
             'modelled (Model/Rescale.lean planePixelscale/amplitudeFactor/interpolated) and compared (amplitude factor observed against util.rescale of the original), original-untouched via the regenerated '
             'effect table (copy.copy counts as sharing) plus snapshots; not a theorem about NumPy',
-            'segment masks stay disjoint, non-empty and cover the aperture support: oracle only (mask_binary_segments_kept only states 0/1 values and the count)']
+            'segment masks stay non-empty and cover the aperture support: oracle only; disjointness is proved (segments_stay_disjoint) under the nearest-sample contract of map_coordinates(order=0), which is trusted',
+            'hard-edged and border-filling apertures are outside the quantifier of the measured clauses: generated with loose tolerances, bookkeeping and the exact constant-aperture power bound are checked on them']
 ASSUMPTIONS = ['apertures and OPDs are smooth on the sampling grid (property quantifier)',
                'FLOAT SEAM of the documented formula: the sample count is ceil(fl(n*s)) with the product formed in float64. For non-dyadic s it '
                'differs by one from the exact ceil(n*s) (s the float) exactly when n*s is within an ulp of an integer — e.g. 30 samples x 1.1 give 33 '
@@ -85,6 +86,8 @@ def generate(rng, tier):
              'px': [1e-3, 2.5e-3, 0.5][int(rng.integers(0, 3))], 'pxmode': 'uniform', 'hseed': int(rng.integers(0, 2**31)),
              'amp_scalar': False, 'opd_scalar': False, 'pre_tilt': bool(rng.integers(0, 2)),
              'int_mask': bool(rng.integers(0, 4) == 0), 'twice': bool(rng.integers(0, 5) == 0), 'propagate': bool(k % 4 == 0)}
+        c['aperture'] = ['smooth', 'smooth', 'smooth', 'hard', 'full'][int(rng.integers(0, 5))]
+        if c['aperture'] != 'smooth': c['propagate'] = False
         if k % 7 == 3: c['scale'] = 1.0
         elif k % 6 == 1: c['scale'] = DECIMAL_SCALES[int(rng.integers(0, len(DECIMAL_SCALES)))]; c['twice'] = False
         t = k % 10
@@ -100,11 +103,12 @@ def generate(rng, tier):
     return out
 
 def signature(c): return (f"{c['kind']} {c['shape']} seg={c['segments']} s={c['scale']} px={c['pxmode']} int={c['int_mask']} twice={c['twice']} "
-                          f"a0={c['amp_scalar']} o0={c['opd_scalar']}")
+                          f"a0={c['amp_scalar']} o0={c['opd_scalar']} {c.get('aperture', 'smooth')}")
 def nontrivial(c): return c['scale'] != 1.0 or c['segments'] > 1 or c['shape'][0] != c['shape'][1] or c['kind'] == 'refuse'
 def tags(c):
     t = [c['kind'], f"scale:{c['scale']}", f"segments:{min(c['segments'], 55)}{'+' if c['segments'] >= 55 else ''}", 'px:' + c['pxmode']]
     if c.get('extreme'): t.append('extreme:' + c['extreme'])
+    t.append('aperture:' + c.get('aperture', 'smooth'))
     if c['scale'] in DECIMAL_SCALES: t.append('non-dyadic-scale')
     sf_ = c['scale']; 
     if any(math.ceil(n * sf_) != math.ceil(n * Fr(sf_)) for n in c['shape']): t.append('float-seam: ceil(fl(n*s)) != ceil(n*s)')
@@ -128,7 +132,8 @@ def _analytic(c, yi, xi):
     co = np.random.default_rng(c['hseed']).uniform(-1, 1, 5)
     y = (yi - n0 // 2) / (0.36 * n0); x = (xi - n1 // 2) / (0.36 * n1)
     r2 = x * x + y * y
-    amp = np.exp(-r2 ** 4)
+    ap = c.get('aperture', 'smooth')
+    amp = np.exp(-r2 ** 4) if ap == 'smooth' else (r2 <= 1.8).astype(float) if ap == 'hard' else np.ones_like(r2)   # hard edge cut by the border / fills the array
     opd = 5e-8 * (co[0] * x + co[1] * y + co[2] * x * y + co[3] * (2 * r2 - 1) + co[4] * (x * x - y * y))
     return amp, opd
 
@@ -194,10 +199,15 @@ def impl(c):
             YI, XI = np.meshgrid(yi, xi, indexing='ij')
             ra, ro = _analytic(c, YI, XI)
             inner = ra > 0.5
+            if c.get('aperture', 'smooth') != 'smooth':
+                # hard-edged / border-filling apertures: only samples at least two input pixels away from an edge are compared
+                from scipy.ndimage import binary_erosion
+                inner = binary_erosion(ra > 0.5, iterations=max(4, int(np.ceil(6 * s)))) if (ra > 0.5).any() else inner
+                if not inner.any(): inner = np.zeros_like(inner); inner[S0 // 2, S1 // 2] = True
             res['amp_err'] = float(np.max(np.abs(A * s - ra)[inner]))
             if not c['opd_scalar'] and not c['pre_tilt']: res['opd_err'] = float(np.max(np.abs(O - ro)[inner]) / 5e-8)
             gm = m if m.ndim == 2 else m.sum(axis=0)
-            res['mask_covers_support'] = bool(np.all(gm[ra > 0.05] == 1))
+            res['mask_covers_support'] = bool(np.all(gm[(ra > 0.05) if c.get('aperture', 'smooth') == 'smooth' else inner] == 1))
         else:
             res['amp_same'] = bool(A.shape == () and float(A) == 0.75)
         if c['opd_scalar']: res['opd_same'] = bool(O.shape == () and float(O) == 2.5e-8)
@@ -330,9 +340,16 @@ def oracle(c, io):
     if not c['amp_scalar']:
         rel = abs(io['power1'] - io['power0']) / io['power0']
         tol = 2e-3 if c['scale'] < 1 else 1e-3      # unchanged tree: <= 1.8e-4 / 8.1e-5 on seeds 0-5
+        if c.get('aperture', 'smooth') != 'smooth':
+            # not smooth on the grid: outside the quantifier of the measured clauses; the exact part still applies to a border-filling
+            # constant aperture (theorem constant_aperture_power): n0 n1 <= P'/a^2 <= (n0 + 1/s)(n1 + 1/s)
+            if c['aperture'] == 'full':
+                sf_ = _eff_scale(c); lo = n0 * n1; hi = (n0 + 1 / sf_) * (n1 + 1 / sf_)
+                if not (lo * (1 - 1e-9) <= io['power1'] <= hi * (1 + 1e-9)): return f"constant aperture: power {io['power1']} outside [{lo}, {hi}]"
+            tol = 0.2
         if rel > tol: return f"transmitted power changed by {rel:.3g} (tolerance {tol}) at scale {c['scale']}"
-        if io['amp_err'] > AMP_TOL: return f"rescaled amplitude (x s) differs from the aperture function on the new grid by {io['amp_err']:.3g}"
-        if 'opd_err' in io and io['opd_err'] > OPD_TOL: return f"rescaled OPD differs from the surface on the new grid by {io['opd_err']:.3g} of its scale"
+        if io['amp_err'] > (AMP_TOL if c.get('aperture', 'smooth') == 'smooth' else 0.1): return f"rescaled amplitude (x s) differs from the aperture function on the new grid by {io['amp_err']:.3g}"
+        if 'opd_err' in io and io['opd_err'] > (OPD_TOL if c.get('aperture', 'smooth') == 'smooth' else 0.2): return f"rescaled OPD differs from the surface on the new grid by {io['opd_err']:.3g} of its scale"
         if not io['mask_covers_support']: return 'the rescaled mask does not cover the support of the aperture'
     if c['propagate'] and io['img_diff'] > 3e-3: return f"propagated image changed by {io['img_diff']:.3g} of the peak at scale {c['scale']}"
     return None
